@@ -95,6 +95,20 @@ class Bench:
         self.sim.settle()
 
     def cycle(self, inputs, prev_inputs=None, sample_pre=None):
+        self.cycle_inputs(inputs, prev_inputs)
+        pre = None
+        if sample_pre is not None:
+            pre = {n: self.get(n) for n in sample_pre}
+        self.edge()
+        return pre
+
+    def edge(self):
+        o = self.ports[self.clk.lower()]
+        self.sim.poke(o.sid, self.act_level)
+        self.sim.settle()
+        self.cycles += 1
+
+    def cycle_inputs(self, inputs, prev_inputs=None):
         """advance one clock period; `inputs` are the values that must be present at the active
         edge.  Each changed input picks an offset (pre / post of the previous period is emulated
         by applying now, since nothing observes the difference between edges except glitches)."""
@@ -126,14 +140,6 @@ class Bench:
                 self.apply({n: inputs[n]})
         else:
             self.apply(inputs)
-        pre = None
-        if sample_pre is not None:
-            pre = {n: self.get(n) for n in sample_pre}
-        o = self.ports[self.clk.lower()]
-        sim.poke(o.sid, self.act_level)
-        sim.settle()
-        self.cycles += 1
-        return pre
 
     def half(self):
         o = self.ports[self.clk.lower()]
